@@ -80,7 +80,7 @@ pub fn c12_precondition(spec: &DictSpec, user: &[LexRow]) -> bool {
             return false;
         }
     }
-    let bit = 1u32 << sp;
+    let bit = crate::refmodel::cat_bit(sp);
     for row in spec.lex.iter().chain(user.iter()) {
         if row.surface.chars().any(|c| rc.info(c).cats & bit != 0) {
             return false;
